@@ -473,6 +473,14 @@ fn parse_mh2o_chunk<R: Read + Seek>(
                 let tile_count = (instance.width as usize) * (instance.height as usize);
                 let byte_count = tile_count.div_ceil(8);
 
+                // A liquid instance covers at most 8x8 tiles, so the bitmap fits in a u64
+                if byte_count > 8 {
+                    return Err(AdtError::InvalidWaterStructure(format!(
+                        "MH2O instance of {}x{} tiles exceeds the 8x8 chunk grid",
+                        instance.width, instance.height
+                    )));
+                }
+
                 // Read only the exact bytes needed (not padded to 8)
                 let mut bitmap_bytes = vec![0u8; byte_count];
                 match reader.read_exact(&mut bitmap_bytes) {
